@@ -16,6 +16,7 @@ type KnownFinding struct {
 	Witness    string `json:"witness,omitempty"`
 	Status     string `json:"status"` // open | fixed
 	Commit     string `json:"commit,omitempty"`
+	Guard      string `json:"guard,omitempty"` // formula over the function's inputs delimiting the failing region
 }
 
 type knownFile struct {
@@ -135,6 +136,17 @@ func report(o *options, p *Program, units []*UnitResult, loadSecs, genSecs, solv
 				}
 				if ob.Result == "unsat" {
 					undecided = append(undecided, fmt.Sprintf("%s: contradictory context (vacuity probe %s is unsat)", u.Name, ob.Name))
+				}
+				continue
+			}
+			if ob.knownProbe != nil {
+				if !belongs(o.prop, u, ob, clauseProps(u, ob)) || ob.knownProbe.Property != o.prop {
+					continue
+				}
+				if ob.Result == "unsat" {
+					fmt.Printf("NOTE: known finding no longer reproduces: property=%s %s (%s)\n", o.prop, ob.knownProbe.What, ob.Name)
+				} else {
+					knownHits = append(knownHits, fmt.Sprintf("KNOWN-FINDING: property=%s %s (%s, inside guard: %s)", o.prop, ob.knownProbe.What, ob.knownProbe.Obligation, ob.knownProbe.Guard))
 				}
 				continue
 			}
